@@ -13,7 +13,7 @@ import subprocess
 import vlib
 
 LEVEL = "proof"
-FORMATS = ["mod", "s3m", "xm"]
+FORMATS = ["mod", "s3m", "xm", "it"]
 MANIFEST = dict(
     category="proof",
     text="Lean 4 theorems (XmpProps.C19) over an independent MOD/S3M/XM/IT encoder `write` and a loader model `read`: "
@@ -67,7 +67,7 @@ def strip_meta(lines):
     body = []
     for l in lines:
         k = l.split(" ", 1)[0]
-        if k in ("opts", "hex", "rt", "wf", "type"):
+        if k in ("opts", "hex", "rt", "wf", "excluded", "type"):
             meta[k] = l[len(k) + 1:]
         else:
             body.append(l)
@@ -189,9 +189,12 @@ def run(ck):
                 # the model's own round trip (what the theorems claim, evaluated)
                 bump("%s_model_roundtrip_%s" % (fmt, meta.get("rt", "?")))
                 bump("%s_generated_wellformed_%s" % (fmt, meta.get("wf", "?")))
-                if meta.get("wf") != "true":
+                excluded = meta.get("excluded") == "true"   # deliberately inside a region excluded because of a known loader defect
+                if excluded:
+                    bump("%s_generated_in_excluded_region" % fmt)
+                if meta.get("wf") != "true" and not excluded:
                     ck.unproved("generator %s" % fmt, "generated song %s is outside WellFormed (%s)" % (cid, meta.get("opts")))
-                if meta.get("rt") != "ok":
+                if meta.get("rt") != "ok" and not excluded:
                     ck.unproved("model round trip %s" % fmt, "read (write s o) %s on generated case %s (%s); request: %s" % (
                         meta.get("rt"), cid, meta.get("opts"), [r for r in reqs if " %s " % cid in r]))
         # ---- direct oracle: real loader on the writer's files vs the abstract song -----------------
